@@ -190,8 +190,8 @@ func runC07(c *Ctx) {
 	c.floor("A3.NILDEP", 15)
 	c.runSigned("SIGNED", upkgs)
 	c.floor("SIGNED", 8)
-	c.runSibLoop("SIBLOOP", c.libPkgs()[:2], [2]string{"RayCollisions", "FirstRayCollision"})
-	c.floor("SIBLOOP", 1)
+	c.runSibLoop("SIBLOOP", append(c.libPkgs()[:2:2], c.fixturePkg("u")), [2]string{"RayCollisions", "FirstRayCollision"})
+	c.floor("SIBLOOP", 0)
 }
 
 // allRepoPkgs: every loaded root package of the repository plus the fixtures.
